@@ -329,7 +329,7 @@ pub fn exec_c17(plan: &C17Plan, st: &mut Stats) -> Option<Violation> {
     None
 }
 
-const MIX_SUB: Mix = Mix { input: [50, 20, 12, 10, 8], max_events: 6, max_decoders: 1, size_classes: [6, 2, 0, 3], source_faults: true };
+const MIX_SUB: Mix = Mix { input: [50, 20, 12, 10, 8], max_events: 6, max_decoders: 1, size_classes: [12, 4, 1, 6], source_faults: true };
 
 pub fn gen_c17(rng: &mut Rng, tier: Tier) -> C17Plan {
     let nthreads = 2 + rng.usize(3);
